@@ -192,14 +192,15 @@ func Harness_C20_ReorderFetcher() {
 
 // Harness_C20_BackPressure: the reorder fetcher with a slow consumer. N items are added by a
 // producer (which blocks whenever the reorder buffer has no free slot); the harness decides,
-// step by step, which outstanding fetch completes next and when the consumer takes one
-// result from Output (capacity = batch size, as the source runner configures it). Every
+// step by step, which outstanding fetch completes next, when the explicit Flush after the last
+// Add is issued and when the consumer takes one result from Output (capacity = batch size, as the source runner configures it). Every
 // completion order and every placement of the consumer's reads is explored; the consumer
 // must receive one result per item, in input order.
 func Harness_C20_BackPressure() {
 	ctx, cancel := context.WithCancel(context.Background())
 	defer cancel()
-	n := verif.Param("N", 6)
+	// an even or an odd number of items: the final explicit Flush finds nothing or a partial batch
+	n := verif.Param("N", 6) - verif.Choose("odd-number-of-items", 2)
 	size := 2
 	nb := (n + size - 1) / size
 	gates := make([]chan struct{}, nb)
@@ -221,13 +222,15 @@ func Harness_C20_BackPressure() {
 		ErrChan:    errs,
 		BufferSize: size,
 	})
+	added := 0
 	go func() {
 		for i := 0; i < n; i++ {
 			rf.Add(ctx, i)
+			added = i + 1
 		}
-		rf.Flush(ctx)
 	}()
 	verif.Quiesce()
+	flushed := false // the explicit Flush after the last Add happens when the harness says so
 	var got []int
 	for steps := 0; len(got) < n && steps < 4*n; steps++ {
 		var acts []int // batch index to complete, or -1 = the consumer takes one result
@@ -239,16 +242,23 @@ func Harness_C20_BackPressure() {
 		if len(rf.Output) > 0 {
 			acts = append(acts, -1)
 		}
+		if added == n && !flushed {
+			acts = append(acts, -2)
+		}
 		verif.Assert(len(acts) > 0, "no-deadlock-under-back-pressure")
 		if len(acts) == 0 {
 			break
 		}
 		a := acts[verif.Choose("next", len(acts))]
-		if a >= 0 {
+		switch {
+		case a >= 0:
 			completed[a] = true
 			gates[a] <- struct{}{}
-		} else {
+		case a == -1:
 			got = append(got, <-rf.Output)
+		default:
+			flushed = true
+			go rf.Flush(ctx)
 		}
 		verif.Quiesce()
 	}
